@@ -13,22 +13,51 @@ import os
 
 BASELINE = os.path.join(os.path.dirname(os.path.dirname(os.path.abspath(__file__))), "baseline_fns.txt")
 MAX_ROUNDS = 4
+# small private helpers of the confirmed tree that the rules look through: they are always spliced into their callers, so
+# that the code looks the same to the rules whether a maintainer keeps the helper, inlines it by hand or renames it
+FORCE_INLINE = {
+    "vaporetto::sentence::Sentence::push_escaped_tag",
+    "vaporetto::type_scorer::boundary_scorer_cache::TypeScorerBoundaryCache::get_score",
+    "vaporetto::type_scorer::boundary_scorer_cache::TypeScorerBoundaryCache::increment_seqid",
+    "vaporetto::type_scorer::boundary_scorer_cache::TypeScorerBoundaryCache::increment_seqid_without_char",
+}
 
 
 def load_baseline(with_sigs=False):
     if not os.path.exists(BASELINE):
         return None
     names, sigs = set(), {}
+    global _CONFIGS, _PRESENT
+    _CONFIGS, _PRESENT = [], {}
     with open(BASELINE) as f:
         for l in f:
             l = l.rstrip("\n")
+            if l.startswith("#configs\t"):
+                _CONFIGS = l.split("\t", 1)[1].split("|")
+                continue
             if not l.strip() or l.startswith("#"):
                 continue
-            n, _, s = l.partition("\t")
+            parts = l.split("\t")
+            n = parts[0]
             names.add(n)
-            if s:
-                sigs[n] = s
+            if len(parts) > 1 and parts[1]:
+                sigs[n] = parts[1]
+            if len(parts) > 2 and parts[2]:
+                _PRESENT[n] = int(parts[2], 16)
     return (names, sigs) if with_sigs else names
+
+
+_CONFIGS, _PRESENT = [], {}
+
+
+def present_in(name, config):
+    """was the function part of the confirmed tree in this configuration? (unknown configuration: in any)"""
+    def key(c):
+        return c if not c.startswith("F:") else "F:" + ",".join(sorted(x for x in c[2:].split(",") if x))
+    ks = [key(c) for c in _CONFIGS]
+    if key(config) in ks and name in _PRESENT:
+        return bool(_PRESENT[name] >> ks.index(key(config)) & 1)
+    return True
 
 
 def _tyn(s):
@@ -59,7 +88,7 @@ def resolve_renames(world, base, sigs):
         for p, f in c.fns.items():
             current[p] = (_tyn("%s -> %s" % (", ".join(f["inputs"]), f["output"])), c)
     crates = {c.name for c in world.crates.values()}
-    missing = [n for n in sigs if n not in current and n.split("::")[0] in crates and n not in world.bodies]
+    missing = [n for n in sigs if n not in current and n.split("::")[0] in crates and n not in world.bodies and present_in(n, getattr(world, "config", "W"))]
     fresh = [p for p in current if p not in base and p in world.bodies]
     out = {}
     for old in missing:
@@ -138,8 +167,11 @@ def inline_into(world, body, helpers, counter):
             continue
         lbase = len(j["locals"])
         bbase = len(j["blocks"])
-        pbase = counter[0]
-        counter[0] += 1000
+        # promoted indexes of spliced code: deterministic per caller (never a global counter: the numbering of one function
+        # must not depend on what was inlined elsewhere, the feature-matrix fingerprints compare functions across builds)
+        k_site = getattr(body, "_inl_sites", 0)
+        body._inl_sites = k_site + 1
+        pbase = 100000 + 1000 * k_site
         lmap = lambda l, lbase=lbase: lbase + l
         bmap = lambda b_, bbase=bbase: bbase + b_
         pmap = lambda p, pbase=pbase: pbase + p
@@ -180,6 +212,142 @@ def inline_into(world, body, helpers, counter):
     return n
 
 
+ITEMS = os.path.join(os.path.dirname(BASELINE), "baseline_items.json")
+
+
+def _map_fields(x, adt, fmap):
+    """rename fields of `adt` in place projections and aggregate literals (new name -> old name)"""
+    if isinstance(x, dict):
+        if x.get("of") == adt and "field" in x and x["field"] in fmap:
+            x = dict(x)
+            x["field"] = fmap[x["field"]]
+        if x.get("k") == "aggr" and x.get("adt") == adt and isinstance(x.get("names"), list):
+            x = dict(x)
+            x["names"] = [fmap.get(n, n) for n in x["names"]]
+        return {k: _map_fields(v, adt, fmap) for k, v in x.items()}
+    if isinstance(x, list):
+        return [_map_fields(v, adt, fmap) for v in x]
+    return x
+
+
+def _rebuild(world):
+    world.bodies = {}
+    for c in world.crates.values():
+        for b in c.bodies:
+            world.bodies.setdefault(b.key, []).append(b)
+
+
+def _apply_text_rename(world, new, old):
+    for c in world.crates.values():
+        for b in c.bodies:
+            if new in str(b.j):
+                b.__init__(_rename_text(b.j, new, old), c)
+        for coll in ("adts", "consts", "fns"):
+            d = getattr(c, coll)
+            for k in list(d):
+                if new in str(d[k]) or new in k:
+                    v = _rename_text(d.pop(k), new, old)
+                    d[_rename_text(k, new, old)] = v
+        c.impls = _rename_text(c.impls, new, old)
+    _rebuild(world)
+
+
+def resolve_item_renames(world):
+    """renames of private types, fields and constants, and new private types:
+      * a type of the confirmed tree that is gone + exactly one new type in the same module with the same variants and field
+        types: a type rename -> the new type is presented under the old path;
+      * a type that still exists whose fields have the same types in the same order but other names: field renames -> the old
+        field names are presented;
+      * a constant that is gone + exactly one new constant in the same module with the same type and value: presented under
+        the old path;
+      * any other new struct: its fields are presented by position ("0", "1", ...), like the tuple it usually replaces."""
+    import json
+    if not os.path.exists(ITEMS):
+        return {}
+    with open(ITEMS) as f:
+        base = json.load(f)
+    out = {"types": {}, "fields": {}, "consts": {}, "positional": []}
+    crates = {c.name for c in world.crates.values()}
+    cur_adts = {}
+    cur_consts = {}
+    for c in world.crates.values():
+        if c.name not in crates:
+            continue
+        for p, a in c.adts.items():
+            if p.split("::")[0] == c.name:
+                cur_adts[p] = a
+        for p, k in c.consts.items():
+            if p.split("::")[0] == c.name:
+                cur_consts[p] = k
+    def shape(variants, names=True):
+        return [[(f[0] if names else None, _tyn(f[1])) for f in v[1]] for v in variants]
+    def cur_shape(a, names=True):
+        return [[(f["name"] if names else None, _tyn(f["ty"])) for f in v["fields"]] for v in a["variants"]]
+    # type renames
+    missing = [p for p in base["adts"] if p not in cur_adts and p.split("::")[0] in crates]
+    fresh = [p for p in cur_adts if p not in base["adts"]]
+    for old in missing:
+        parent = old.rsplit("::", 1)[0]
+        cands = [p for p in fresh if p.rsplit("::", 1)[0] == parent and cur_shape(cur_adts[p], False) == shape(base["adts"][old], False)
+                 and p not in out["types"].values()]
+        if len(cands) == 1:
+            out["types"][old] = cands[0]
+    for old, new in out["types"].items():
+        _apply_text_rename(world, new, old)
+        # the type's own name also appears as the struct variant name and, unqualified, in type strings
+        on, nn = old.rsplit("::", 1)[1], new.rsplit("::", 1)[1]
+        if on != nn:
+            _apply_text_rename(world, nn, on)
+    if out["types"]:
+        cur_adts = {p: a for c in world.crates.values() for p, a in c.adts.items() if p.split("::")[0] == c.name}
+    # field renames
+    for p, a in cur_adts.items():
+        if p not in base["adts"]:
+            continue
+        bs = base["adts"][p]
+        if len(bs) != len(a["variants"]) or cur_shape(a, False) != shape(bs, False):
+            continue
+        fmap = {}
+        for bv, cv in zip(bs, a["variants"]):
+            for bf, cf in zip(bv[1], cv["fields"]):
+                if bf[0] != cf["name"]:
+                    fmap[cf["name"]] = bf[0]
+        if fmap and len(set(fmap.values())) == len(fmap):
+            out["fields"][p] = fmap
+    # new structs -> positional fields
+    for p, a in cur_adts.items():
+        if p not in base["adts"] and p not in out["types"].values() and a["kind"] == "struct" and len(a["variants"]) == 1:
+            fmap = {f["name"]: str(i) for i, f in enumerate(a["variants"][0]["fields"]) if not f["name"].isdigit()}
+            if fmap:
+                out["fields"][p] = fmap
+                out["positional"].append(p)
+    for p, fmap in out["fields"].items():
+        for c in world.crates.values():
+            for b in c.bodies:
+                if p in str(b.j):
+                    b.__init__(_map_fields(b.j, p, fmap), c)
+            if p in c.adts:
+                a = c.adts[p]
+                for v in a["variants"]:
+                    for f in v["fields"]:
+                        f["name"] = fmap.get(f["name"], f["name"])
+    if out["fields"]:
+        _rebuild(world)
+    # constant renames
+    missing = [p for p in base["consts"] if p not in cur_consts and p.split("::")[0] in crates]
+    fresh = [p for p in cur_consts if p not in base["consts"]]
+    for old in missing:
+        parent = old.rsplit("::", 1)[0]
+        bt, bv = base["consts"][old]
+        cands = [p for p in fresh if p.rsplit("::", 1)[0] == parent and _tyn(cur_consts[p]["ty"]) == _tyn(bt)
+                 and json.dumps(cur_consts[p].get("value"), sort_keys=True) == bv and p not in out["consts"].values()]
+        if len(cands) == 1:
+            out["consts"][old] = cands[0]
+    for old, new in out["consts"].items():
+        _apply_text_rename(world, new, old)
+    return out
+
+
 def apply(world):
     loaded = load_baseline(with_sigs=True)
     world.inlined = {}
@@ -187,11 +355,12 @@ def apply(world):
     if loaded is None:
         return
     base, sigs = loaded
+    world.item_renames = resolve_item_renames(world)
     world.renamed = resolve_renames(world, base, sigs)
     helpers = {}
     for key, bs in world.bodies.items():
         b = bs[0]
-        if b.promoted is None and "{closure" not in key and "{impl" not in key and key not in base and len(bs) == 1 and b.j.get("kind") in ("Fn", "AssocFn"):
+        if b.promoted is None and "{closure" not in key and "{impl" not in key and (key not in base or key in FORCE_INLINE) and len(bs) == 1 and b.j.get("kind") in ("Fn", "AssocFn"):
             helpers[key] = b
     if not helpers:
         return
